@@ -133,6 +133,7 @@ fn main() {
             "ext" => suites::ext::run(&mut ctx),
             "ana" => suites::ana::run(&mut ctx),
             "mat" => suites::mat::run(&mut ctx),
+            "plant" => suites::mat::run_plant(&mut ctx),
             "ord" => suites::meta::run_order(&mut ctx),
             "ren" => suites::meta::run_rename(&mut ctx),
             _ => panic!("unknown suite"),
